@@ -1,5 +1,5 @@
 import Ark.Proofs.Table
-import Ark.Proofs.GenBridge
+import Ark.Proofs.GenBridge.Table
 import Ark.Proofs.ArchIndex
 import Ark.Proofs.Rejects
 import Ark.Props.C15World
